@@ -77,7 +77,11 @@ def evaluate(case) -> Result:
             gen[i] = 0
         raise_for = set()
         if not case.get("app_kind") == "threading":
+            block_for = set()
+
             def beh_basic(rec_):
+                if (rec_["hbh"], rec_["e2e"]) in block_for:
+                    return "block-then-hold"
                 return "raise" if (rec_["hbh"], rec_["e2e"]) in raise_for else "hold"
             w.behaviour_fn = beh_basic
         reqs = []                   # dicts: peer, gen, conn, hbh, e2e, rec (requests_seen entry), submitted, fault_between
@@ -182,6 +186,36 @@ def evaluate(case) -> Result:
                     nontrivial = True
                 if len([o for o in reqs if not o["submitted"]]) > 1:
                     nontrivial = True
+            elif kind == "REQ2_LOST_WHILE_HANDLING" and not threading_app:
+                # two requests arrive in one read; while the handler of the first is still running (in the reader
+                # thread) the connection is lost and removed; the second one is dispatched only afterwards
+                pi = ev[1] % npeers
+                c = conns[pi]
+                if c is None or c.node_closed or c.peer_closed:
+                    continue
+                nc = w.node_conn_for(c)
+                if nc is None or nc.state not in pm.PEER_READY_STATES or any(r["conn"] is c and not r["submitted"] for r in reqs):
+                    continue
+                ids = []
+                data = b""
+                for hb in (0, 1):
+                    e2e[0] += 1
+                    ids.append((0xa0 + hb, e2e[0]))
+                    data += W.build_msg({"k": "REQ", "host": names[pi], "hbh": 0xa0 + hb, "e2e": e2e[0]})
+                block_for.add(ids[0])
+                w.apps[0]._verif_cfg["slow_s"] = 2
+                n_seen = len(w.requests_seen)
+                w.feed(c, data)
+                w.peer_close(c)
+                w.advance(3)
+                for (hb_, e_) in ids:
+                    new = [r for r in w.requests_seen[n_seen:] if r["hbh"] == hb_ and r["e2e"] == e_]
+                    reqs.append({"peer": pi, "gen": gen[pi], "conn": c, "hbh": hb_, "e2e": e_, "rec": new[0] if new else None,
+                                 "submitted": 0, "t": w.k.now, "auto": False})
+                gen[pi] += 1
+                conns[pi] = establish(pi)
+                res.classes.append("lost-while-handling")
+                nontrivial = True
             elif kind == "SUBMIT_DIRECT" and not threading_app:
                 pool = [r for r in reqs if r["rec"] is not None and r["submitted"] == 0 and conn_live_ready(r)]
                 if not pool:
@@ -388,7 +422,7 @@ def shard_main(shard, nshards, tier, scale):
     req = st.tuples(st.just("REQ"), st.integers(0, 2), st.integers(0, 2))
     ev = st.one_of(req, req, req, st.tuples(st.just("REQ_RAISE"), st.integers(0, 2), st.integers(0, 2)),
                    st.tuples(st.just("SUBMIT"), st.integers(0, 3)), st.tuples(st.just("SUBMIT"), st.integers(0, 3)),
-                   st.tuples(st.just("SUBMIT_DIRECT"), st.integers(0, 3)),
+                   st.tuples(st.just("SUBMIT_DIRECT"), st.integers(0, 3)), st.tuples(st.just("REQ2_LOST_WHILE_HANDLING"), st.integers(0, 2)),
                    st.tuples(st.just("SUBMIT_AGAIN"), st.integers(0, 3)), st.tuples(st.just("SUBMIT_AGAIN"), st.integers(0, 3)),
                    st.tuples(st.just("FAULT"), st.integers(0, 2), st.sampled_from(["eof", "reset", "dpr", "dpr-close", "reconnect", "reconnect-overlap", "watchdog", "dwa", "dwa"])),
                    st.tuples(st.just("ADV"), st.sampled_from([1, 2, 4])))
@@ -427,6 +461,11 @@ def shard_main(shard, nshards, tier, scale):
             for pre in ([["REQ", 0, 0]], [["FAULT", 0, "watchdog"], ["FAULT", 0, "dwa"], ["REQ", 0, 0]]):
                 jobs.append({"npeers": 1, "app_kind": "basic", "idle": 3, "out0": out0, "name0": "peer1.example",
                              "events": pre + mid + [["SUBMIT", 0], ["SUBMIT_AGAIN", 0]]})
+    for out0 in (False, True):
+        jobs.append({"npeers": 1, "app_kind": "basic", "out0": out0, "name0": "peer1.example",
+                     "events": [["REQ2_LOST_WHILE_HANDLING", 0], ["SUBMIT", 0], ["SUBMIT", 0], ["SUBMIT_AGAIN", 0]]})
+        jobs.append({"npeers": 2, "app_kind": "basic", "out0": out0, "name0": "peer1.example",
+                     "events": [["REQ", 1, 0], ["REQ2_LOST_WHILE_HANDLING", 0], ["SUBMIT", 1], ["SUBMIT", 0], ["SUBMIT", 0]]})
     jobs.append({"npeers": 1, "app_kind": "basic", "events": [["REQ_RAISE", 0, 0], ["SUBMIT_AGAIN", 0]]})
     jobs.append({"npeers": 1, "app_kind": "basic", "events": [["REQ", 0, 0], ["SUBMIT_DIRECT", 0], ["SUBMIT_AGAIN", 0]]})
     jobs.append({"npeers": 2, "app_kind": "basic", "events": [["REQ", 0, 0], ["REQ", 1, 0], ["SUBMIT_DIRECT", 1], ["SUBMIT_AGAIN", 0], ["SUBMIT", 0]]})
@@ -443,7 +482,7 @@ def run(tier, scale=1.0):
     for d in hyp.pool_run(shard_main, (tier, scale)):
         rec.merge(d)
     required = {"schedule-exploration": 1, "deviations:2": 1, "npeers:3": 1, "app:threading": 1, "fault:eof": 1, "fault:reset": 1, "fault:dpr": 1,
-                "fault:reconnect": 1, "fault:reconnect-overlap": 1, "watchdog-outstanding": 1, "dwa-after-dpr": 1, "handler-raised-then-submit": 1, "direct-send-message": 1, "out0:True": 1, "double-submission": 1, "equal-hbh-two-conns": 1, "reqs:4": 1}
+                "fault:reconnect": 1, "fault:reconnect-overlap": 1, "lost-while-handling": 1, "watchdog-outstanding": 1, "dwa-after-dpr": 1, "handler-raised-then-submit": 1, "direct-send-message": 1, "out0:True": 1, "double-submission": 1, "equal-hbh-two-conns": 1, "reqs:4": 1}
     return finish(rec, tier=tier, level=LEVEL, rule=RULE, assumptions=ASSUME, t0=t0,
                   required_classes=required)
 
